@@ -8,12 +8,20 @@ Clause → theorem
 * outputs are functions of the ray records at the documented samples:
   `analysis_is_function_of_rays` (spot data of a lens = post-processing of `traceLens` records),
   `spot_function_of_xy`, `distortion_function_of_y`, `fc_function_of_meridional`,
-  `operand_rms_eq_spot_rms`, `operand_is_record`
+  `operand_rms_eq_spot_rms`, `operand_is_record`.
+  REVIEW NOTE: the first four are unfoldings / congruences of the model's own definitions (they hold
+  for *any* definition of that shape and say nothing about `/repo`); the clause "equals the quantity
+  recomputed from independently traced rays" is carried by the differential correspondence of the
+  harness, not by these theorems.  Only `operand_rms_eq_spot_rms` relates two differently written
+  computations.
 * centroid / radii: `centroid_translation`, `centred_centroid_zero`, `rms_le_geometric`, `radii_nonneg`
 * encircled energy: `ee_monotone`, `ee_le_total`, `ee_reaches_total`, `ee_reaches_total_at_rmax`,
-  `linspace_last` (the last plotted radius is `r_max`)
+  `linspace_last` (the last plotted radius is `r_max`); composed for the model's actual output
+  `encircledEnergy data n` (bound on `r_max` derived, not assumed): `encircledEnergy_curves`
+  (with `eeRmax_spec`, `linspace_zero_mono`, `spotsOK_of_rays`)
 * field curvature: `parabasal_intersection`, `fc_value_is_z_offset`
-* distortion: `distortion_def`, `distortion_zero_at_reference`, `distortion_spec_angle`,
+* distortion: `distortion_def`, `distortion_zero_at_reference`, `distortion_ref_is_paraxial_partial`,
+  `distortion_spec_angle`,
   `distortion_height_linear_zero` (the reference required for object-height fields; the code's
   `tan(radians(h))` reference is F18 — numerical evidence in the harness)
 * grid distortion: `grid_flip_is_negation`, `gridDistortion_spec_angle`
@@ -23,6 +31,11 @@ Clause → theorem
 
 Partial (no theorem; numerical in the harness, see `coddington_partial` below): agreement of the
 parabasal intersection with Coddington's equations is a first-order limit (error O(δ²)).
+REVIEW NOTE, further gaps: the distortion clause is stated against the *small-field chief ray*
+reference (`distortion_def`); that this is the paraxial image height is only the conditional
+`distortion_ref_is_paraxial_partial`.  No theorem at all concerns `pupilAberration`, `yybarSegments`,
+`rmsVsFieldHy`, `fanPupil`/`fanShift` (beyond `rayFan_code_eq_spec`) or `gridOut`'s `max_distortion`:
+for those analyses the claim rests on the differential correspondence only.
 -/
 namespace C12
 open Model Model.An AnProofs
@@ -256,7 +269,8 @@ theorem parabasal_intersection (y1 z1 M1 N1 y2 z2 M2 N2 : ℝ) (hD : M1 * N2 - M
 
 example : (1 : ℝ) * 1 - 0 * (1 : ℝ) ≠ 0 := by norm_num
 
-/-- every value of `fcTangential` is `parabasalT … · N₁` of a consecutive pair (definitional) -/
+/-- every value of `fcTangential` is `parabasalT … · N₁` of a consecutive pair (definitional, `rfl`;
+the content is in `parabasal_intersection`) -/
 theorem fc_value_is_z_offset (r1 r2 : Ray ℝ) (rs : List (Ray ℝ)) :
     fcTangential (r1 :: r2 :: rs) =
       (parabasalT r1.y r1.z r1.M r1.N r2.y r2.z r2.M r2.N * r1.N) :: fcTangential rs ∧
@@ -328,7 +342,9 @@ theorem distortion_zero_at_reference (maxField y0 : ℝ) (hy yr : List ℝ)
   simp
 
 /-- **distortion for object-height fields** (what the property requires, F18): with the linear
-reference a perfectly linear imaging `y = m·h` has zero distortion at every field. -/
+reference a perfectly linear imaging `y = m·h` has zero distortion at every field.
+(The numerator `m h − m h` vanishes identically; for `m = 0` or a field `h = 0` the quotient is the
+junk `0/0 = 0` of ℝ where NumPy gives `nan` — the statement is meaningful for `m ≠ 0`, `h ≠ 0`.) -/
 theorem distortion_height_linear_zero (m : ℝ) (hy : List ℝ) :
     ∀ v ∈ distortion_height (eps10 :: hy) ((eps10 :: hy).map (fun h => m * h)), v = 0 := by
   have he : (eps10 : ℝ) ≠ 0 := by rw [eps10_val]; norm_num
@@ -428,7 +444,8 @@ theorem rayFan_code_eq_spec {α : Type} [Num α] (wls : List α) (primary : α) 
 
 /-- **analysis_is_function_of_rays** (spot data): entry `[f][w]` of `SpotDiagram.data` is the
 `[x, y, intensity]` of the image-surface record of the trace of the rays launched for field `f`
-and wavelength `w` (definitional). -/
+and wavelength `w`.  DEFINITIONAL: this is `List.getD` of the two `List.map`s in `spotDataOfLens`;
+`surfsAt` and `launch` are free parameters, so nothing is said about which rays are launched. -/
 theorem analysis_is_function_of_rays {α : Type} [Num α] (surfsAt : α → List (RSurf α))
     (launch : (α × α) → α → List (Ray α)) (fields : List (α × α)) (wls : List α)
     (f w : Nat) (hf : f < fields.length) (hw : w < wls.length) :
@@ -444,8 +461,9 @@ theorem spot_function_of_xy {α : Type} [Num α] (rs rs' : List (Ray α))
     geoOf (center (spotOfRays rs) c) = geoOf (center (spotOfRays rs') c) := by
   simp [centroidOf, spotOfRays, rmsOf, geoOf, radiiOf, r2Of, center, hx, hy]
 
-/-- `Distortion` depends on the chief-ray records only through their `y` (see `Drv/Analysis.lean`:
-the command feeds `rs.map (·.y)`); stated for the spec and the code variant at once -/
+/-- TRIVIAL (congruence of function application: `h ▸ rfl`, true of every function applied to
+`rs.map (·.y)`).  Documents only that the model's `Distortion` is *written* as a function of the y
+column (see `Drv/Analysis.lean`: the command feeds `rs.map (·.y)`); it is no evidence for the clause. -/
 theorem distortion_function_of_y {α : Type} [Num α] (angle : Bool) (t : DistType) (mf : α) (hy : List α)
     (rs rs' : List (Ray α)) (h : rs.map (·.y) = rs'.map (·.y)) :
     distortion_code t mf hy (rs.map (·.y)) = distortion_code t mf hy (rs'.map (·.y)) ∧
@@ -484,5 +502,198 @@ theorem operand_is_record {α : Type} [Num α] (recs : List (List (Ray α))) (k 
   have hp : pyIdx recs.length (k : Int) = some k := by
     simp [pyIdx, hk]
   simp [rayOperand, hp, List.getD_eq_getElem?_getD, hk, h]
+
+/-! ### encircled energy, end to end: the curves `EncircledEnergy` plots
+
+The theorems `ee_monotone` / `ee_reaches_total_at_rmax` above are about `eeAt` at arbitrary radii and
+carry the bound `geoOf s ≤ A` as a *hypothesis*.  The statements below are about the model's actual
+output `encircledEnergy data numPoints` (what `Drv/Analysis.lean` runs): the plotted radii are
+`linspace(0, r_max, numPoints)` with `r_max = eeRmax data`, and the bound is *derived* from the
+definition of `eeRmax`. -/
+
+/-- shape of the data `SpotDiagram._generate_field_data` produces: x, y, intensity of equal length,
+non-negative intensities -/
+def SpotsOK (data : SpotData ℝ) : Prop :=
+  ∀ fd ∈ data, ∀ s ∈ fd, s.x.length = s.i.length ∧ s.y.length = s.i.length ∧ ∀ e ∈ s.i, 0 ≤ e
+
+/-- the records of a trace always have that shape (intensities ≥ 0 assumed: C16) -/
+theorem spotsOK_of_rays (rss : List (List (List (Ray ℝ)))) (hI : ∀ f ∈ rss, ∀ rs ∈ f, ∀ r ∈ rs, 0 ≤ r.i) :
+    SpotsOK (rss.map fun f => f.map spotOfRays) := by
+  intro fd hfd s hs
+  obtain ⟨f, hf, rfl⟩ := List.mem_map.mp hfd
+  obtain ⟨rs, hrs, rfl⟩ := List.mem_map.mp hs
+  refine ⟨by simp [spotOfRays], by simp [spotOfRays], ?_⟩
+  intro e he
+  obtain ⟨r, hr, rfl⟩ := List.mem_map.mp he
+  exact hI f hf rs hrs r hr
+
+theorem mem_zipWith_exists {β γ δ : Type} (f : β → γ → δ) :
+    ∀ (xs : List β) (ys : List γ), ∀ v ∈ List.zipWith f xs ys, ∃ a ∈ xs, ∃ b ∈ ys, v = f a b := by
+  intro xs
+  induction xs with
+  | nil => intro ys v hv; simp at hv
+  | cons a xs ih =>
+    intro ys v hv
+    cases ys with
+    | nil => simp at hv
+    | cons b ys =>
+      simp only [List.zipWith_cons_cons, List.mem_cons] at hv
+      rcases hv with rfl | hv
+      · exact ⟨a, by simp, b, by simp, rfl⟩
+      · obtain ⟨a', ha', b', hb', e⟩ := ih ys v hv
+        exact ⟨a', by simp [ha'], b', by simp [hb'], e⟩
+
+/-- every centred spot of `EncircledEnergy` is a spot of the data with a centre subtracted -/
+theorem eeCenter_mem (data : SpotData ℝ) (fd : List (Spot ℝ)) (hfd : fd ∈ eeCenter data) (s : Spot ℝ) (hs : s ∈ fd) :
+    ∃ fd0 ∈ data, ∃ s0 ∈ fd0, ∃ c : ℝ × ℝ, s = center s0 c := by
+  unfold eeCenter centerSpots at hfd
+  obtain ⟨fd0, h0, c, _, rfl⟩ := mem_zipWith_exists _ _ _ fd hfd
+  obtain ⟨s0, hs0, rfl⟩ := List.mem_map.mp hs
+  exact ⟨fd0, h0, s0, hs0, c, rfl⟩
+
+theorem eeCenter_shape (data : SpotData ℝ) (hok : SpotsOK data) (fd : List (Spot ℝ)) (hfd : fd ∈ eeCenter data)
+    (s : Spot ℝ) (hs : s ∈ fd) : (radiiOf s).length = s.i.length ∧ ∀ e ∈ s.i, 0 ≤ e := by
+  obtain ⟨fd0, h0, s0, hs0, c, rfl⟩ := eeCenter_mem data fd hfd s hs
+  obtain ⟨hx, hy, he⟩ := hok fd0 h0 s0 hs0
+  refine ⟨?_, he⟩
+  simp [radiiOf, r2Of, center, hx, hy]
+
+/-- `r_max` bounds the geometric radius of every centred spot of every field, and is `≥ 0` -/
+theorem eeRmax_spec (data : SpotData ℝ) :
+    0 ≤ eeRmax data ∧
+    ∀ fd ∈ eeCenter data, ∀ s ∈ fd, ∃ A : ℝ, geoOf s ≤ A ∧ eeRmax data = A * eeBuffer := by
+  set L := ((eeCenter data).map (·.map geoOf)).flatten with hL
+  have hnn : ∀ v ∈ L, 0 ≤ v := by
+    intro v hv
+    obtain ⟨l, hl, hvl⟩ := List.mem_flatten.mp hv
+    obtain ⟨fd, _, rfl⟩ := List.mem_map.mp hl
+    obtain ⟨s, _, rfl⟩ := List.mem_map.mp hvl
+    exact (radii_nonneg s).2
+  have h0 : 0 ≤ npMax L := by
+    by_cases hne : L = []
+    · rw [hne]; show (0 : ℝ) ≤ Num.zero; rw [NumReal.fzero_eq]
+    · exact hnn _ (npMax_mem L hne)
+  have hb := eeBuffer_ge_one
+  constructor
+  · show 0 ≤ Num.mul (npMax L) eeBuffer
+    rw [NumReal.fmul_eq]
+    nlinarith
+  · intro fd hfd s hs
+    refine ⟨npMax L, npMax_ge L _ ?_, rfl⟩
+    exact List.mem_flatten.mpr ⟨fd.map geoOf, List.mem_map.mpr ⟨fd, hfd, rfl⟩, List.mem_map.mpr ⟨s, hs, rfl⟩⟩
+
+/-- `np.linspace(0, b, n)` with `b ≥ 0` is non-decreasing -/
+theorem linspace_zero_mono (b : ℝ) (hb : 0 ≤ b) (n : Nat) : (linspace (0 : ℝ) b n).Pairwise (· ≤ ·) := by
+  match n with
+  | 0 => simp [linspace]
+  | 1 => simp [linspace]
+  | m + 2 =>
+    unfold linspace
+    simp only
+    rw [List.pairwise_map]
+    refine List.Pairwise.imp_of_mem ?_ (List.pairwise_lt_range (n := m + 2))
+    intro i j hi hj hij
+    have hi' : i < m + 2 := List.mem_range.mp hi
+    have hj' : j < m + 2 := List.mem_range.mp hj
+    have hm : (0 : ℝ) < ((m + 1 : ℕ) : ℝ) := by positivity
+    have hstep : ∀ k : ℕ, k ≤ m + 1 → (k : ℝ) * (b / ((m + 1 : ℕ) : ℝ)) ≤ b := by
+      intro k hk
+      have hk' : (k : ℝ) ≤ ((m + 1 : ℕ) : ℝ) := by exact_mod_cast hk
+      rw [← mul_div_assoc, div_le_iff₀ hm]
+      nlinarith
+    have hi_ne : i ≠ m + 1 := by omega
+    rw [if_neg hi_ne]
+    num_real
+    rw [ofNat_eq, ofNat_eq, sub_zero, add_zero]
+    by_cases hjm : j = m + 1
+    · rw [if_pos hjm]
+      exact hstep i (by omega)
+    · rw [if_neg hjm, ofNat_eq, add_zero]
+      have : (i : ℝ) ≤ (j : ℝ) := by exact_mod_cast hij.le
+      have hs : 0 ≤ b / ((m + 1 : ℕ) : ℝ) := div_nonneg hb hm.le
+      exact mul_le_mul_of_nonneg_right this hs
+
+/-- **encircled energy, the property's clause on the plotted curves**: for spot data of the shape
+the trace produces and `num_points ≥ 2`, every curve `(r_step, ee)` of `EncircledEnergy`
+* has the radii `linspace(0, r_max, num_points)`, non-decreasing, ending at `r_max`;
+* is non-decreasing along them (`ee` is a non-decreasing list);
+and the last values of the curves are, in plotting order, the total energies `np.nansum(intensity)`
+of the spots (so every curve *reaches* the total transmitted energy of its own spot). -/
+theorem encircledEnergy_curves (data : SpotData ℝ) (hok : SpotsOK data) (m : Nat) :
+    (∀ c ∈ encircledEnergy data (m + 2),
+        c.1 = linspace 0 (eeRmax data) (m + 2) ∧ c.1.Pairwise (· ≤ ·) ∧
+        c.1.getLast? = some (eeRmax data) ∧ c.2.Pairwise (· ≤ ·)) ∧
+    (encircledEnergy data (m + 2)).map (fun c => c.2.getLast?) =
+      ((eeCenter data).map fun fd => fd.map fun s => some (sumL s.i)).flatten := by
+  obtain ⟨hr0, hrmax⟩ := eeRmax_spec data
+  have hmono := linspace_zero_mono (eeRmax data) hr0 (m + 2)
+  constructor
+  · intro c hc
+    unfold encircledEnergy at hc
+    obtain ⟨l, hl, hcl⟩ := List.mem_flatten.mp hc
+    obtain ⟨fd, hfd, rfl⟩ := List.mem_map.mp hl
+    obtain ⟨s, hs, rfl⟩ := List.mem_map.mp hcl
+    refine ⟨rfl, hmono, linspace_last _ _ m, ?_⟩
+    show ((linspace 0 (eeRmax data) (m + 2)).map (eeAt (radiiOf s) s.i)).Pairwise (· ≤ ·)
+    rw [List.pairwise_map]
+    exact hmono.imp fun {a b} hab => ee_monotone _ _ a b hab (eeCenter_shape data hok fd hfd s hs).2
+  · unfold encircledEnergy
+    simp only [List.map_flatten, List.map_map]
+    congr 1
+    apply List.map_congr_left
+    intro fd hfd
+    simp only [Function.comp_def, List.map_map]
+    apply List.map_congr_left
+    intro s hs
+    simp only [List.getLast?_map, linspace_last, Option.map_some]
+    obtain ⟨A, hA, hR⟩ := hrmax fd hfd s hs
+    rw [hR]
+    congr 1
+    exact ee_reaches_total_at_rmax s A (eeCenter_shape data hok fd hfd s hs).1 hA
+
+/-- non-vacuity: two fields, one wavelength, three rays each, unequal energies (one blocked ray) -/
+example : SpotsOK [[⟨[0, 1, -1], [0, 2, 1], [1, 1, 0]⟩], [⟨[3, 4, 5], [0, 1, -1], [1, 0.5, 1]⟩]] := by
+  intro fd hfd s hs
+  simp only [List.mem_cons, List.mem_nil_iff, or_false] at hfd
+  rcases hfd with rfl | rfl <;>
+  · simp only [List.mem_cons, List.mem_nil_iff, or_false] at hs
+    subst hs
+    refine ⟨rfl, rfl, ?_⟩
+    intro e he
+    simp only [List.mem_cons, List.mem_nil_iff, or_false] at he
+    rcases he with rfl | rfl | rfl <;> norm_num
+
+/-- non-vacuity of `distortion_zero_at_reference`: a 20° field (`tan` of a small positive angle) -/
+example : Real.tan (eps10 * ((20 : ℝ) * (Real.pi / 180))) ≠ 0 := by
+  rw [eps10_val]
+  have hpi := Real.pi_pos
+  have h1 : 0 < 1 / 10 ^ 10 * ((20 : ℝ) * (Real.pi / 180)) := by positivity
+  have h2 : 1 / 10 ^ 10 * ((20 : ℝ) * (Real.pi / 180)) < Real.pi / 2 := by nlinarith
+  exact ne_of_gt (Real.tan_pos_of_pos_of_lt_pi_div_two h1 h2)
+
+/-- non-vacuity of `ee_monotone` / `ee_le_total`: non-negative energies of the right length -/
+example : ∃ radii energy : List ℝ, radii.length = energy.length ∧ radii ≠ [] ∧ ∀ e ∈ energy, 0 ≤ e :=
+  ⟨[0, 1, 2], [1, 0, 0.5], rfl, by simp, by intro e he; simp at he; rcases he with rfl | rfl | rfl <;> norm_num⟩
+
+/-! ### two further links (review additions) -/
+
+/-- PARTIAL (distortion against the *paraxial* image height): **if** the small-field chief ray lands at
+its paraxial height `y0 = f·tan(ε θmax)` (object at infinity, focal length `f`), the code's reference is
+the paraxial image height `f·tan(h θmax)` (f-tan) resp. `f·h θmax` (f-θ) at every field.  The premise
+(the chief ray at field `1e-10` is paraxial, error O(ε²)) is not a theorem; it is checked numerically
+against the harness's own y-nu trace. -/
+theorem distortion_ref_is_paraxial_partial (θmax f h : ℝ) (ht : Real.tan (eps10 * θmax) ≠ 0) :
+    yRef .ftan θmax (f * Real.tan (eps10 * θmax)) h = f * Real.tan (h * θmax) ∧
+    yRef .ftheta θmax (f * Real.tan (eps10 * θmax)) h = f * (h * θmax) := by
+  unfold yRef
+  simp only
+  rw [mul_div_assoc, div_self ht, mul_one]
+  exact ⟨rfl, by ring⟩
+
+/-- `RayOperand.rms_spot_size(wavelength='all')` on a lens with a single wavelength is the
+single-wavelength operand (two differently written computations agree, every carrier) -/
+theorem operand_rms_all_single {α : Type} [Num α] (rs : List (Ray α)) :
+    opRmsAll [rs] 0 = opRmsSingle rs := by
+  simp [opRmsAll, opRmsSingle, List.zipWith_map, List.zipWith_self]
 
 end C12
